@@ -1,6 +1,7 @@
 """C05 — XPath evaluation: the dispatch tables the evaluator is built from (narrow claim)."""
 import e1
 import enumflow
+import xpdispatch
 from common import Finding, Result
 from facts import BrokenCheck, walk
 from props import c07, c08, c14
@@ -8,15 +9,7 @@ from props.c08 import arm_callees, match_arms_on, variants_of_pat, ws
 
 LEVEL = "other"
 
-AXIS_FN = {
-    "Ancestor": "xml_xpath::eval::ancestor", "AncestorOrSelf": "xml_xpath::eval::ancestor_and_self",
-    "Attribute": "xml_xpath::eval::attributes", "Child": "xml_xpath::eval::child",
-    "Descendant": "xml_xpath::eval::descendant", "DescendantOrSelf": "xml_xpath::eval::descendant_and_self",
-    "Following": "xml_xpath::eval::following", "FollowingSibling": "xml_xpath::eval::following_sibling",
-    "Namespace": "xml_xpath::eval::namespace", "Parent": "xml_dom::<XmlNode as Node>::parent_node",
-    "Preceding": "xml_xpath::eval::preceding", "PrecedingSibling": "xml_xpath::eval::preceding_sibling",
-    "Current": None,
-}
+AXIS_FN = xpdispatch.AXIS_FN
 REVERSE_AXES = {"Ancestor", "AncestorOrSelf", "Preceding", "PrecedingSibling"}
 
 # axis function -> the navigation primitive it must be built on (and must not use)
@@ -68,17 +61,15 @@ def run(facts, tier):
     f = facts.fn("xml_xpath::eval::eval_axis_node_test")
     # ---- axis table
     st = res.rule("C05-axis", instances=0)
-    arms = match_arms_on(f, "model::AxisName")
-    if arms is None:
-        raise BrokenCheck("C05: match over AxisName not found")
-    seen = {}
-    for arm in arms:
-        for v in variants_of_pat(arm["pat"]):
-            seen[v] = ws(arm_callees(facts, arm["body"]))
+    # enumflow: under which axes is each axis function reached (called, or taken as a function value), through whatever
+    # dispatch the code uses - nested or flat matches, a helper that is handed the axis, a table of function values
+    adom, seen, nuses = xpdispatch.axis_table(facts, lambda nm: nm in xpdispatch.AXIS_TARGETS)
+    if nuses < 6:
+        raise BrokenCheck("C05-axis: only %d uses of axis functions found from eval_axis_node_test (floor 6)" % nuses)
     for v, fn_ in AXIS_FN.items():
         st["instances"] += 1
-        got = seen.get(v)
-        ok = got is not None and (got == [fn_] if fn_ else got == [])
+        got = sorted(seen.get(v, ()))
+        ok = v in seen and (got == [fn_] if fn_ else got == [])
         res.oblige(1, ok)
         if not ok:
             res.add(Finding("C05-axis", v, "axis %s is evaluated with %s, expected %s" % (v, got, fn_ or "the context node itself"), f["file"], f["line"], {}))
@@ -147,11 +138,22 @@ def run(facts, tier):
     # ---- node type tests
     st4 = res.rule("C05-nodetest", instances=0)
     t = facts.fn("xml_xpath::eval::eval_node_test")
-    arms = match_arms_on(t, "model::NodeType")
-    got = {}
-    for arm in arms or []:
-        for v in variants_of_pat(arm["pat"]):
-            got[v] = {str(m["path"]).split("::")[-1] for m in walk(arm["body"]) if m.get("k") == "Path" and "xml_dom::NodeType::" in str(m.get("path", ""))}
+    # enumflow over NodeTest / NodeType: with which DOM node types is the context node compared under each node-type test
+    # (nested `match ty { .. }` or flat `NodeTest::Type(NodeType::Text) => ..` alike)
+    try:
+        ndom = enumflow.Domain(facts, "model::NodeTest", "model::NodeType", "Type",
+                               level_fn=lambda ty: "outer" if "model::NodeTest" in ty else ("inner" if "model::NodeType" in ty else None))
+        nhits = enumflow.Flow(ndom, t).run(lambda n: n.get("k") == "Path" and "xml_dom::NodeType::" in str(n.get("path", "")))
+    except enumflow.Unknown as u:
+        raise BrokenCheck("C05-nodetest: %s" % u)
+    got = {v: set() for v in ndom.inner_vars}
+    for n, s_ in nhits:
+        # a comparison that is made for every test (the principal-node-type guard of name tests) says nothing about one test
+        if set(ndom.inner_vars) <= s_:
+            continue
+        for v in s_:
+            if v in got:
+                got[v].add(str(n["path"]).split("::")[-1])
     for v, want in NODE_TYPE_TEST.items():
         st4["instances"] += 1
         ok = got.get(v) == want
